@@ -3,6 +3,7 @@ package rules
 import (
 	"go/token"
 	"go/types"
+	"sort"
 	"strings"
 
 	"golang.org/x/tools/go/ssa"
@@ -401,6 +402,26 @@ func c27R3(c *engine.Ctx, p *poolFns) {
 	}
 	n += invokePairing(c, p, "C27.R3", false)
 	c.Floor("C27.R3", 9, n)
+	// R5: DC.Invoke declares a connection dead (un-counts it) on the word of errRetryableOnNewConn;
+	// that word must mean "the connection is gone": exactly {ErrConnDead, rpc.ErrEngineClosed}. Any
+	// other error class there un-counts a connection that may still be alive (limit exceeded).
+	if cls := c.MustFunc("C27.R5", "pool", "errRetryableOnNewConn"); cls != nil {
+		var targets []string
+		for _, call := range engine.CallsTo(cls, true, "github.com/go-faster/errors.Is", "errors.Is", "github.com/go-faster/errors.As", "errors.As") {
+			targets = append(targets, engine.Describe(call.Common().Args[1]))
+		}
+		sort.Strings(targets)
+		c.Check(strings.Join(targets, ",") == "g:pool.ErrConnDead,g:rpc.ErrEngineClosed", "C27.R5", "errRetryableOnNewConn/only-connection-gone-errors", cls.Pos(), "the errors on which DC.Invoke un-counts a connection must be exactly {ErrConnDead, rpc.ErrEngineClosed} (tests %v)", targets)
+		for _, call := range callsFn(p.invoke, p.dead) {
+			guarded := false
+			for _, k := range callsFn(p.invoke, cls) {
+				if kc, ok := k.(*ssa.Call); ok && guardedByCall(call, kc, true) {
+					guarded = true
+				}
+			}
+			c.Check(guarded, "C27.R5", "Invoke/dead#"+ordinalCall(p.invoke, call)+"/only-when-connection-gone", call.Pos(), "DC.Invoke may declare the connection dead only under errRetryableOnNewConn(err)")
+		}
+	}
 }
 
 // invokePairing checks DC.Invoke: a connection obtained from acquire is, on
@@ -839,6 +860,34 @@ func c28R4(c *engine.Ctx, p *poolFns) {
 		ls := engine.Locksets(rr)
 		ok := sig != nil && rst != nil && engine.Dominates(sig, rst) && ls[sig]["p:r.lock"] && ls[rst]["p:r.lock"]
 		c.Check(ok, "C28.R4", "ResetReady.Reset/signal-then-rearm", rr.Pos(), "Reset must wake the current waiters (Signal) and then re-arm, both under its lock")
+	}
+	// release: "no waiter" (transfer returned false) and "put on the free list" are one DC.mu critical
+	// section, the same lock under which acquire finds the list empty and registers its request:
+	// otherwise a waiter registers in between and is never served although a connection is idle
+	{
+		ls := engine.Locksets(p.release)
+		var tr ssa.CallInstruction
+		for _, call := range callsFn(p.release, p.transfer) {
+			tr = call
+		}
+		var app *ssa.Store
+		for _, a := range dcAccesses(p, "free") {
+			if a.fn == p.release && a.write {
+				app = a.at.(*ssa.Store)
+			}
+		}
+		ok := tr != nil && app != nil && ls[tr]["p:c.mu"] && ls[app]["p:c.mu"]
+		if ok {
+			for _, u := range engine.CallsTo(p.release, false, "(*sync.Mutex).Unlock") {
+				if _, isDefer := u.(*ssa.Defer); isDefer || engine.Describe(u.Common().Args[0]) != "p:c.mu" {
+					continue
+				}
+				if engine.PathExists(tr, u) && engine.PathExists(u, app) {
+					ok = false
+				}
+			}
+		}
+		c.Check(ok, "C28.R4", "release/transfer-and-free-list-one-critical-section", p.release.Pos(), "release must hold DC.mu from the waiter lookup (transfer) to the free-list append")
 	}
 	// order in acquire: request registered before DC.mu is released, stuck read after
 	{
